@@ -125,6 +125,7 @@ def isolate(b0: int, b1: int, b2: int, cab: int, uab: int, when: int) -> bool:
         alone = _canary_alone(role, k)
         closer_alone = _closer_alone(role, k) if closer_on else None
         env = envkit.new_env()
+        env.fd_reuse = bool(CFG.get('fd_reuse'))
         xk = envkit.Executor(scen.FLAGS[role], env)
         cst = {'cs': xk.accept('canary')}
         closer = xk.accept('closer', ('10.7.7.7', 7)) if closer_on == 'before' else None
@@ -158,6 +159,8 @@ def isolate(b0: int, b1: int, b2: int, cab: int, uab: int, when: int) -> bool:
     elif adv_at == 0:
         adv.inq.append(adversary_bytes(tpl, [b0, b1, b2]))
     second = CFG.get('second')
+    if CFG.get('adv_stall'):
+        adv.sendscript = [envkit.WOULD_BLOCK] * 40      # the adversary never takes its response: output stays pending, its work lives on
     ex = xk.ex
     for i in range(k):
         _canary_step(cst, env, i)
@@ -247,6 +250,11 @@ def obligations(tier):
         for cab in (0, 1, 2, 5):
             add('web.%s.cab%d' % (tpl, cab), role='web', tpl=tpl, cab=cab, uab=0, when=1)
         add('web.%s.second' % tpl, role='web', tpl=tpl, cab=0, uab=0, when=2, second=True)
+    # descriptor numbers are reused by the kernel: whatever a connection closes early must not stay registered under its old number
+    for tpl in ('fwd_path', 'connect_host'):
+        for uab in (1, 2):
+            add('fdreuse.%s.uab%d' % (tpl, uab), role='forward', tpl=tpl, cab=0, uab=uab, when=2, answer=True, fd_reuse=True, adv_stall=True)
+            add('fdreuse.%s.uab%d.k4' % (tpl, uab), role='forward', tpl=tpl, cab=0, uab=uab, when=2, answer=True, fd_reuse=True, adv_stall=True, k=4)
     # websocket route: arbitrary / truncated frame bytes after the handshake
     for tpl in ('ws', 'ws_ctl'):
         for cab in (0, 1, 2):
@@ -283,7 +291,7 @@ META = {
                  'client-side abort in {none, EOF, reset, EIO on recv, EPIPE on send}; upstream connect outcome in {ok, refused, timeout, '
                  'resolution failure, unreachable}; upstream abort in {EOF, reset, EIO, timeout} before/after answering; a second keep-alive '
                  'request on web/reverse connections; a websocket route: handshake followed by a frame with an arbitrary length/mask byte '
-                 '(truncated frames) or an arbitrary opcode byte; a call-count watchdog on the parser/frame/socket primitives turns a loop '
+                 '(truncated frames) or an arbitrary opcode byte; descriptor numbers reused lowest-first while an adversary that never drains its response loses its upstream; a call-count watchdog on the parser/frame/socket primitives turns a loop '
                  'that makes no progress into a reported stall',
         'thorough': 'the same with 4 iterations',
     },
